@@ -155,6 +155,76 @@ def check(model: Model, run: Run) -> None:
     stores = [n for n in walk_no_nested(mainf.node) if isinstance(n, ast.Assign) and any(isinstance(t, ast.Attribute) for t in n.targets) and gen_v is not None and gen_v in ml.reads(n.value)]
     run.check(gen_v is not None and not stores and any(isinstance(v, ast.Constant) and v.value is None for v in ml.values(gen_v)), mainf.qualname, 'the update generator is a local of _main (dropped with the frame on session loss)', mainf.loc(), 'a half-consumed generator of the lost session must not survive into the next one')
 
+    # ------------------------------------------------------------------ R6 every family is replayed
+    run.rule(
+        'C11.R6',
+        'the replay covers every family: the per-family loops of Cache.cached_routes, OutgoingRIB.replace_restart and Protocol.new_eors '
+        'have no early exit - a `return` / `break` reached for one family (nothing cached for it) ends the replay for all the families '
+        'that come after it',
+        floor=3,
+    )
+    n6 = 0
+    for fq in ('exabgp.rib.cache.Cache.cached_routes', RIB + '.replace_restart', 'exabgp.reactor.protocol.Protocol.new_eors', RIB + '.resend'):
+        f6 = model.funcs.get(fq)
+        if f6 is None:
+            run.cannot('%s vanished' % fq)
+            continue
+        run.analysed(f6)
+        for lp in walk_no_nested(f6.node):
+            if not isinstance(lp, (ast.For, ast.AsyncFor)):
+                continue
+            it = norm(lp.iter)
+            if 'famil' not in it and 'famil' not in norm(lp.target):
+                continue
+            n6 += 1
+            exits = []
+            stack = list(lp.body)
+            while stack:
+                x = stack.pop()
+                if isinstance(x, (ast.Return, ast.Break)):
+                    exits.append(x)
+                elif isinstance(x, (ast.For, ast.AsyncFor, ast.While)):
+                    # a break of an inner loop only leaves that loop; a return leaves everything
+                    stack += [y for y in ast.walk(x) if isinstance(y, ast.Return)]
+                elif not isinstance(x, (ast.FunctionDef, ast.AsyncFunctionDef, ast.Lambda)):
+                    stack += list(ast.iter_child_nodes(x))
+            run.check(
+                not exits,
+                fq,
+                'the loop over %s visits every family' % it[:50],
+                f6.loc(exits[0]) if exits else f6.loc(lp),
+                'the loop is left at %s for one family: the families after it are not replayed (their cached routes are not re-advertised, '
+                'or their End-of-RIB is not sent) after the session is re-established' % (norm(exits[0])[:40] if exits else ''),
+            )
+    if n6 < 3:
+        run.cannot('only %d per-family loops found in the replay functions' % n6)
+
+    # ------------------------------------------------------------------ R7 kept / not kept, each RIB by its own setting
+    run.rule(
+        'C11.R7',
+        'the shared RIB of a neighbor is emptied on (re)configuration only by its own setting: outgoing.clear() under `not adj_rib_out`, '
+        'incoming.clear() under `not adj_rib_in`; and no call in rib/ or reactor/peer/ passes two same-typed values in the order opposite '
+        'to the parameters they are named after',
+        floor=4,
+    )
+    from .common import swapped_arguments_rule
+
+    for fq in ('exabgp.rib.RIB.__init__', 'exabgp.rib.RIB.enable'):
+        f7 = model.funcs.get(fq)
+        if f7 is None:
+            run.cannot('%s vanished' % fq)
+            continue
+        run.analysed(f7)
+        pm7 = parent_map(f7.node)
+        for c in walk_no_nested(f7.node):
+            if isinstance(c, ast.Call) and isinstance(c.func, ast.Attribute) and c.func.attr == 'clear' and dotted(c.func.value) in ('self.outgoing', 'self.incoming'):
+                side = 'adj_rib_out' if dotted(c.func.value) == 'self.outgoing' else 'adj_rib_in'
+                other = 'adj_rib_in' if side == 'adj_rib_out' else 'adj_rib_out'
+                g = [(norm(t), pol) for t, pol in flat_guards(f7.node, c, pm7)]
+                ok7 = any(t == side and not pol for t, pol in g) and not any(other in t for t, _ in g)
+                run.check(ok7, fq, '%s.clear() only when %s is false' % (dotted(c.func.value), side), f7.loc(c), 'found guards %s: with adj-rib-in false and adj-rib-out true every reload empties the Adj-RIB-Out, so the routes announced through the API are not replayed after the next session loss' % g)
+    swapped_arguments_rule(model, run, ('exabgp.rib.', 'exabgp.reactor.peer.', 'exabgp.reactor.protocol.', 'exabgp.bgp.neighbor.'), 'the wrong table is emptied or the wrong flag applied', floor=20)
+
 
 def pm_loop_target(pm: dict, node: ast.AST):
     cur = node
